@@ -10,5 +10,5 @@ CONSTANTS
   RateMax = 100
   PosMax = 50
   Tier = "quick"
-INVARIANTS ICInv ICSeedInv
+INVARIANTS ICInv ICSeedInv ICTiltInv
 CHECK_DEADLOCK FALSE
